@@ -139,8 +139,15 @@ func (eng *Engine) discharge(frs []*FuncResult, sv *Solvers, only func(name stri
 		}
 		for _, or := range fr.Obls {
 			if only != nil && !only(or.Name) {
-				or.Status = "skipped"
+				if or.Status == "" {
+					or.Status = "skipped"
+				}
 				continue
+			}
+			if or.Status == "skipped" {
+				or.Status = ""
+			} else if or.Status != "" {
+				continue // decided by an earlier pass
 			}
 			jobs = append(jobs, job{fr, or})
 		}
